@@ -41,7 +41,7 @@ Forms == /\ ~done
 
 (* cfg-gated variants: a gated extra value, or two variants sharing a value under exclusive gates *)
 GatedVariants == /\ ~done
-         /\ \E exh \in Exhs : \E shape \in 1..8 :
+         /\ \E exh \in Exhs : \E shape \in 1..12 :
               LET base == Plain(2, exh, {0, 1, 2}, "asc").variants IN
               e' = [name |-> "E", n |-> 2, exh |-> exh, variants |->
                      CASE shape = 1 -> Append(base, V(3, DSeq(3, 2), "on", "lit"))
@@ -52,7 +52,14 @@ GatedVariants == /\ ~done
                        [] shape = 6 -> base \o <<V(3, DSeq(3, 2), "off", "lit"), V(4, DSeq(4, 2), "off", "lit")>>
                        (* two #[cfg] attributes on one variant: compiled in only if BOTH hold *)
                        [] shape = 7 -> base \o <<V(3, DSeq(3, 2), "onoff", "lit"), V(4, DSeq(3, 2), "on", "lit")>>
-                       [] shape = 8 -> <<V(9, DSeq(1, 2), "offon", "lit")>> \o [k \in 1..3 |-> IF k = 2 THEN [base[k] EXCEPT !.cfg = "on"] ELSE base[k]]]
+                       [] shape = 8 -> <<V(9, DSeq(1, 2), "offon", "lit")>> \o [k \in 1..3 |-> IF k = 2 THEN [base[k] EXCEPT !.cfg = "on"] ELSE base[k]]
+                       (* ONE variant name declared twice under complementary gates with DIFFERENT values: live one first / last *)
+                       [] shape = 9 -> <<base[1], V(1, DSeq(1, 2), "on", "lit"), V(1, DSeq(2, 2), "off", "lit")>>
+                       [] shape = 10 -> <<base[1], V(1, DSeq(2, 2), "off", "lit"), V(1, DSeq(1, 2), "on", "lit")>>
+                       [] shape = 11 -> <<base[1], V(1, DSeq(1, 2), "on", "lit"), V(1, DSeq(2, 2), "off", "lit"),
+                                          V(2, DSeq(2, 2), "on", "lit"), V(2, DSeq(1, 2), "off", "lit"), V(3, DSeq(3, 2), "none", "lit")>>
+                       [] shape = 12 -> <<V(3, DSeq(3, 2), "on", "lit"), V(3, DSeq(0, 2), "off", "lit"), V(0, DSeq(0, 2), "on", "lit"),
+                                          V(0, DSeq(3, 2), "off", "lit"), base[2], base[3]>>]
          /\ done' = TRUE
 
 (* the #[cfg] gate is not the variant's first attribute (a doc comment precedes it) *)
